@@ -74,6 +74,26 @@ def parseLevels : Nat → List Str → List (List Binding)
   | k + 1, n :: rest => let (l, r) := parseLevel (natOf n) rest; l :: parseLevels k r
   | _ + 1, [] => []
 
+/-- pairs `ident label` -/
+def parseNodes : List Str → List Node
+  | i :: l :: rest => ⟨i, l⟩ :: parseNodes rest
+  | _ => []
+
+def takeN : Nat → List Str → List Str × List Str
+  | 0, rest => ([], rest)
+  | n + 1, x :: rest => let (a, r) := takeN n rest; (x :: a, r)
+  | _ + 1, [] => ([], [])
+
+/-- `n` then `n` fields -/
+def takeCounted : List Str → List Str × List Str
+  | n :: rest => (rest.take (natOf n), rest.drop (natOf n))
+  | [] => ([], [])
+
+def showKind : FileKind → List Str
+  | .fortran p f => ["fortran".toList, (if p then ['1'] else ['0']), (if f then ['1'] else ['0'])]
+  | .extra => ["extra".toList]
+  | .skipped => ["skipped".toList]
+
 def variantOf (s : Str) : Variant :=
   if s == "repaired".toList then .repaired else if s == "asIs".toList then .asIs else variantOfTree
 
@@ -110,7 +130,31 @@ def dispatchC12 : List Str → Option (List Str)
             (if Gen.C12.usesIterSorted then "sorted".toList else "unsorted".toList),
             (if Gen.C12.countKeyLower then "lower".toList else "asWritten".toList),
             (if Gen.C12.incDirsOrdered then "ordered".toList else "hash".toList),
-            (if Gen.C12.inheritedIterOrdered then "ordered".toList else "hash".toList)]
+            (if Gen.C12.inheritedIterOrdered then "ordered".toList else "hash".toList),
+            (if Gen.C12.nodeLtByIdent then "ident".toList else "other".toList),
+            (if Gen.C12.entityLtByIdent then "ident".toList else "other".toList),
+            (if Gen.C12.pageListNatural then "natural".toList else "keyed".toList),
+            (if Gen.C12.extensionBySuffix then "suffix".toList else "firstMatch".toList)]
+    else if cmd == "c12.filekind".toList then
+      -- c12.filekind <name> <n> exts.. <n> fixed.. <n> fpp.. <n> extra..   (lists in the order the settings hold them)
+      match args with
+      | name :: rest =>
+        let (e, r1) := takeCounted rest
+        let (f, r2) := takeCounted r1
+        let (p, r3) := takeCounted r2
+        let (x, _) := takeCounted r3
+        some ("ok".toList :: showKind (fileKindTree id ⟨e, f, p, x⟩ name))
+      | [] => some ["bad-request".toList]
+    else if cmd == "c12.find".toList then
+      -- c12.find <configuration> <out> <n> src dirs.. <n> user exclude dirs.. <n> extensions.. then the files
+      match args with
+      | cfg :: out :: rest =>
+        let (sd, r1) := takeCounted rest
+        let (ex, r2) := takeCounted r1
+        let (es, files) := takeCounted r2
+        let fs : FS := files.map (fun f => (splitSlash f, []))
+        some ("ok".toList :: (findSourcesTree cfg (sd.map splitSlash) (ex.map splitSlash) (splitSlash out) es fs).map joinSlash)
+      | _ => some ["bad-request".toList]
     else if cmd == "c12.include".toList then
       -- c12.include <own dir> <own has 0|1> <n> {dir has}: the directory the include file is taken from
       -- (the configured order stands in for the unknown iteration order when the tree goes through a set)
@@ -131,6 +175,21 @@ def dispatchC12 : List Str → Option (List Str)
                  else chainComps Gen.C12.inheritedIterOrdered id levels
         some ("ok".toList :: r.map (·.name))
       | _ => some ["bad-request".toList]
+    else if cmd == "c12.nodes".toList then
+      -- c12.nodes <node|entity> {ident label}: `sorted()` of the objects, given in the iteration order of the set
+      match args with
+      | kind :: rest =>
+        let ns := parseNodes rest
+        let r := if kind == "entity".toList then sortEntitiesTree ns else emitNodesTree ns
+        some ("ok".toList :: r.map (·.ident))
+      | [] => some ["bad-request".toList]
+    else if cmd == "c12.pages".toList then
+      -- c12.pages <n> {ordered_subpage} {listdir result}: the names get_page_tree walks, in order
+      match args with
+      | n :: rest =>
+        let (ordered, enum) := takeN (natOf n) rest
+        some ("ok".toList :: pageFileListTree ordered enum)
+      | [] => some ["bad-request".toList]
     else if cmd == "c12.writeout".toList then
       -- c12.writeout <out> <nInit> init... then groups of writes separated by a field "|" : path content ...
       match args with
